@@ -43,6 +43,37 @@ class OpaqueFloat:
         return {"f0": 1.5, "f1": -0.25}.get(self.name, 2.75)
 
 
+class FloatOfInt:
+    """float(n) for a symbolic int n (also float(str(n))): only int() and str() of it are modelled.
+    int(float(n)) is exact IEEE-754 double rounding for |n| < 2**54 (n itself up to 2**53, the nearest even
+    multiple of 2 above) and an unconstrained integer beyond -- a sound over-approximation."""
+
+    __vt_type__ = float
+    _n = 0
+
+    def __init__(self, n: Any) -> None:
+        self.n = n
+
+    def __repr__(self) -> str:
+        return f"<float of int {self.n!r}>"
+
+    def to_int(self) -> Any:
+        n = self.n
+        if not isinstance(n, SymInt):
+            return builtins.int(builtins.float(n))
+        if -(2**53) <= n <= 2**53:
+            return n
+        if -(2**54) < n < 2**54:
+            if n % 2 == 0:
+                return n
+            # a tie between the two neighbouring doubles: round half to even mantissa, i.e. to the multiple of 4
+            return n + 1 if (n + 1) % 4 == 0 else n - 1
+        from vt import sym as _sym
+
+        FloatOfInt._n += 1
+        return _sym.ctx().int(f"int_of_float{FloatOfInt._n}")
+
+
 class StrOf:
     """The text produced by str(v) for a symbolic int or opaque float v."""
 
@@ -171,6 +202,8 @@ def vt_int(x: Any = 0, *rest: Any) -> Any:
         raise ValueError(f"invalid literal for int() with base 10: {x!r}")
     if isinstance(x, B64Of):
         raise ValueError("invalid literal for int() (base64 text)")
+    if isinstance(x, FloatOfInt):
+        return x.to_int()
     if isinstance(x, OpaqueFloat):
         raise TypeError("vt: int(float) of an opaque float is outside the model")
     return builtins.int(x)
@@ -179,11 +212,17 @@ def vt_int(x: Any = 0, *rest: Any) -> Any:
 def vt_float(x: Any = 0.0) -> Any:
     if isinstance(x, OpaqueFloat):
         return x
+    if isinstance(x, FloatOfInt):
+        return x
     if isinstance(x, StrOf):
         if isinstance(x.inner, OpaqueFloat):
             return x.inner
-        raise TypeError("vt: float(str(int)) is outside the model")
-    if isinstance(x, (SymInt, SymBool, B64Of)):
+        if isinstance(x.inner, SymInt):
+            return FloatOfInt(x.inner)
+        return builtins.float(x.inner)
+    if isinstance(x, SymInt):
+        return FloatOfInt(x)
+    if isinstance(x, (SymBool, B64Of)):
         raise TypeError("vt: float() of this proxy is outside the model")
     return builtins.float(x)
 
